@@ -25,8 +25,13 @@ def run_demo():
     d = os.path.join(W, CR.get(crate, crate), "tests")
     os.makedirs(d, exist_ok=True)
     copied = []
-    for f in glob.glob(demo + "/*.rs"):
-        shutil.copy(f, d); copied.append(os.path.join(d, os.path.basename(f)))
+    rs = glob.glob(demo + "/*.rs")
+    names = [os.path.basename(f)[:-3] for f in rs]
+    for f in rs:
+        dst = os.path.join(d, os.path.basename(f))
+        if test not in names and f == rs[0]:
+            dst = os.path.join(d, test + ".rs")   # the README renames the file when copying it
+        shutil.copy(f, dst); copied.append(dst)
     rc, o = sh(f"cargo test -p {crate} --test {test} --offline -- --test-threads=1", cwd=W, env=env)
     for c in copied: os.remove(c)
     try: os.rmdir(d)
